@@ -535,7 +535,11 @@ func finish(p *Plan, prop, tier string, seed uint64, total *Stats, viols []*Trac
 			case code == 1:
 				fmt.Printf("  replay in a fresh process reports a violation with another signature:\n%s\n", indent(tail(string(ob), 600)))
 			default:
-				fmt.Printf("  WARNING: replay in a fresh process did not reproduce (exit %d):\n%s\n", code, indent(tail(string(ob), 600)))
+				// seen with a library change that keeps state in a package-level variable (a sync.Pool of
+				// buffers): the run then depends on the runs this worker process executed before it, which a
+				// one-run trace does not carry; the whole check with the same VERIF_SEED shows it again.
+				// With the race engine it means the Go runtime did not produce the interleaving again.
+				fmt.Printf("  WARNING: replay in a fresh process did not reproduce (exit %d); the violation then depends on state left in the process by earlier runs, or (race engine) on the runtime's schedule - rerun the check with VERIF_SEED=%d:\n%s\n", code, seed, indent(tail(string(ob), 600)))
 			}
 		}
 	}
